@@ -411,7 +411,7 @@ func classifyStrings(c Case) (bool, []string) {
 var specStrings = pbt.Spec[Case]{
 	Property: prop, Name: "strings",
 	Rule:     "len/upper/lower on ASCII text (incl. braces, quotes, backslashes, control bytes), like/prefix/suffix with a needle cut from the value or independent, substr with 0<=pos<=len and 0<=length<=len+2, select on 1-5 words joined by runs of space/tab/newline with an in-range index, format with %s/%Ns/%-Ns/%% and matching argument count, tab of 1-5 values; each argument via constant/group/key; exact reference implementations written from the docs. Every case non-trivial",
-	Budget:   pbt.Budget{Quick: 60000, Thorough: 3000000},
+	Budget:   pbt.Budget{Quick: 25000, Thorough: 200000},
 	Gen:      genStrings,
 	Check:    checkStrings,
 	Classify: classifyStrings,
